@@ -636,7 +636,9 @@ func cmdCheck(args []string) {
 				}
 			}
 		}
-		if !(sup[*prop] || inBase || *prop == "C02") {
+		// C02 (safety) and C14 (strict write frame of every function: nothing pre-existing, no package variable is written)
+		// are claimed for every function of the code base, so a function that can no longer be verified loses both
+		if !(sup[*prop] || inBase || *prop == "C02" || *prop == "C14") {
 			continue
 		}
 		isKnown := false
